@@ -22,10 +22,24 @@ func c14RacePass(tier string) (map[string]interface{}, []mc.Violation) {
 		iters = "3000"
 	}
 	t0 := time.Now()
-	cmd := exec.Command(bin, iters)
-	cmd.Env = append(os.Environ(), "GOMAXPROCS=16", "GORACE=halt_on_error=1 exitcode=66")
-	out, err := cmd.CombinedOutput()
-	extra := map[string]interface{}{"race_pass": map[string]interface{}{"kind": "free-running -race complement (sampling; reports only data races and self-check failures)", "goroutines": 32, "cycles_per_goroutine": iters, "wall_s": time.Since(t0).Seconds(), "output_tail": tailStr(string(out), 300)}}
+	// first-call mode: fresh processes, the goroutines' first calls into the library race with each other
+	firsts := 8
+	if tier == "thorough" {
+		firsts = 40
+	}
+	var out []byte
+	var err error
+	for i := 0; i < firsts && err == nil; i++ {
+		cmd := exec.Command(bin, "first")
+		cmd.Env = append(os.Environ(), "GOMAXPROCS=16", "GORACE=halt_on_error=1 exitcode=66")
+		out, err = cmd.CombinedOutput()
+	}
+	if err == nil {
+		cmd := exec.Command(bin, iters)
+		cmd.Env = append(os.Environ(), "GOMAXPROCS=16", "GORACE=halt_on_error=1 exitcode=66")
+		out, err = cmd.CombinedOutput()
+	}
+	extra := map[string]interface{}{"race_pass": map[string]interface{}{"kind": "free-running -race complement (sampling; reports only data races and self-check failures)", "goroutines": 32, "cycles_per_goroutine": iters, "first_call_processes": firsts, "wall_s": time.Since(t0).Seconds(), "output_tail": tailStr(string(out), 300)}}
 	if err == nil {
 		return extra, nil
 	}
